@@ -35,6 +35,10 @@ INSTR_PHASES = ['setup', 'before-assert', 'assert', 'cleanup']
 #   outcome: 'pass' | 'fail' | an error identifier
 
 
+# (the byte 0xE9 alone is not UTF-8; SimPopen writes str as UTF-8 with surrogateescape)
+STDERR_KINDS = {None: 'boom\n', 'empty': '', 'undecodable': 'bad \udce9 byte\n'}
+
+
 def _endings():
     E = []
 
@@ -47,6 +51,13 @@ def _endings():
     add('assert_run_nonzero', 'exec', 'fail', ['assert'])
     add('assert_stub_fail', 'exec', 'fail', ['assert'])
     add('run_nonzero', 'exec', 'HARD_ERROR', ['setup', 'before-assert', 'cleanup'])
+    # what the failing program wrote on stderr (nothing at all; bytes that are not UTF-8) is only quoted in the
+    # message: it changes nothing about the verdict
+    add('assert_exit_code_mismatch', 'exec', 'fail', ['assert'], stderr='undecodable')
+    add('assert_run_nonzero', 'exec', 'fail', ['assert'], stderr='undecodable')
+    add('assert_run_nonzero', 'exec', 'fail', ['assert'], stderr='empty')
+    add('run_nonzero', 'exec', 'HARD_ERROR', ['setup', 'before-assert', 'cleanup'], stderr='undecodable')
+    add('run_nonzero', 'exec', 'HARD_ERROR', ['setup', 'before-assert', 'cleanup'], stderr='empty')
     # double endings: a failing assertion, then an error in [cleanup]: "anything that interrupts execution is reported
     # as the documented error verdict" - a failed assertion does not turn a later error into a failed test
     add('fail_then_cleanup_hard', 'exec', 'HARD_ERROR', ['cleanup'], how='exit_code_mismatch')
@@ -80,6 +91,13 @@ def _endings():
     add('missing_include', 'parse', 'FILE_ACCESS_ERROR', ['setup', 'cleanup'])
     add('unreadable_include', 'parse', 'FILE_ACCESS_ERROR', ['setup'])
     add('unreadable_case', 'parse', 'FILE_ACCESS_ERROR')
+    # a file whose bytes are not text in the encoding in use: WHICH error verdict that is is not stated (judged: one of
+    # the error verdicts, reported like any other - identifier, exit code, no escaping exception)
+    add('undecodable_case_file', 'parse', 'SOME_ERROR')
+    add('undecodable_included_file', 'parse', 'SOME_ERROR', ['setup', 'cleanup'])
+    # other ways in which an included file cannot be read
+    add('include_is_a_directory', 'parse', 'FILE_ACCESS_ERROR', ['setup'])
+    add('include_path_through_a_regular_file', 'parse', 'FILE_ACCESS_ERROR', ['setup'])
     add('preprocessor_fails', 'parse', 'PRE_PROCESS_ERROR')
     add('preprocessor_killed_by_signal', 'parse', 'PRE_PROCESS_ERROR')
     add('preprocessor_cannot_start', 'parse', 'PRE_PROCESS_ERROR')
@@ -193,14 +211,16 @@ def build(seed, tier, ending, status, mode, g, atc_exit=None, sweep=False):
         pass
     elif eid == 'assert_exit_code_mismatch':
         insert('assert', {'k': 'real', 'text': 'exit-code == %d' % ((atc_exit + g.choice([1, 2, 100])) % 256)})
+        if ending.get('stderr'):
+            procs['atc'] = dict(procs['atc'], stderr=STDERR_KINDS[ending['stderr']])
     elif eid == 'assert_run_nonzero':
-        procs['ax'] = {'exit': g.choice([1, 2, 255])}
+        procs['ax'] = {'exit': g.choice([1, 2, 255]), 'stderr': STDERR_KINDS[ending.get('stderr')]}
         insert('assert', {'k': 'probe', 'id': 'ax', 'form': g.choice(['%', 'run', '$'])})
     elif eid == 'assert_stub_fail':
         stub('assert', 'main', 'pfh_fail')
     elif eid == 'run_nonzero':
         ident = casegen.PREFIX[ph] + 'x'
-        procs[ident] = {'exit': g.choice([1, 2, 255]), 'stderr': 'boom\n'}
+        procs[ident] = {'exit': g.choice([1, 2, 255]), 'stderr': STDERR_KINDS[ending.get('stderr')]}
         insert(ph, {'k': 'probe', 'id': ident, 'form': g.choice(['%', 'run', '$'])})
     elif eid in ('fail_then_cleanup_hard', 'fail_then_cleanup_exception'):
         how = ending['how']
@@ -272,6 +292,17 @@ def build(seed, tier, ending, status, mode, g, atc_exit=None, sweep=False):
         files['home/inc.xly'] = 'def string INC = i\n'
         insert(ph, {'k': 'real', 'text': 'including inc.xly'})
         fsfaults.append({'path_suffix': 'home/inc.xly', 'op': 'open', 'nth': 0, 'errno': g.choice(['EACCES', 'EIO'])})
+    elif eid == 'undecodable_case_file':
+        case['tail'] = '# caf\udce9 (one byte, 0xE9: not UTF-8)\n'
+    elif eid == 'undecodable_included_file':
+        files['home/inc.xly'] = 'def string INC = "caf\udce9"\n'
+        insert(ph, {'k': 'real', 'text': 'including inc.xly'})
+    elif eid == 'include_is_a_directory':
+        files['home/incdir/x.txt'] = 'x'
+        insert(ph, {'k': 'real', 'text': 'including incdir'})
+    elif eid == 'include_path_through_a_regular_file':
+        files['home/regular.xly'] = 'def string R = r\n'
+        insert(ph, {'k': 'real', 'text': 'including regular.xly/sub.xly'})
     elif eid == 'unreadable_case':
         fsfaults.append({'path_suffix': 'home/t.case', 'op': 'open', 'nth': 0, 'errno': g.choice(['EACCES', 'EIO'])})
     elif eid == 'preprocessor_fails':
@@ -447,7 +478,7 @@ def expected(plan):
             e.get('step') != 'post_setup'
         sandbox = not validation_time and e['id'] != 'sandbox_cannot_be_created'
     passthrough = mode == 'act' and verdict in ('PASS', 'FAIL', 'XPASS', 'XFAIL')
-    return {'verdict': verdict, 'code': CODE[verdict], 'passthrough': passthrough, 'sandbox': sandbox}
+    return {'verdict': verdict, 'code': CODE.get(verdict), 'passthrough': passthrough, 'sandbox': sandbox}
 
 
 def oracle(plan, hist):
@@ -481,6 +512,10 @@ def oracle(plan, hist):
         if hist['n_sandboxes'] or hist['spawn_tags']:
             bad('usage.nothing_executed', [], hist['spawn_tags'])
         return V
+    if x['verdict'] == 'SOME_ERROR':
+        seen = (out_lines if mode == 'normal' else err_lines)[0]
+        seen = seen if seen in ('FILE_ACCESS_ERROR', 'SYNTAX_ERROR', 'INTERNAL_ERROR') else 'FILE_ACCESS_ERROR'
+        x = dict(x, verdict=seen, code=CODE[seen])
     ident = x['verdict']
     if x['passthrough']:
         if out != atc.get('stdout', ''):
